@@ -90,15 +90,17 @@ theorem dpop_accept {sup : List String} {typ : String} {E : Env} {c : Bool} {j :
     exact ⟨s, k, hs, h.symm, by simpa using hsup, by simpa using htyp, hj1, hj2, hk, by simpa using hver⟩
   · cases h
 
-theorem dagTx_accept {allowed : List String} {rej : Bool} {E : Env} {o : Bool} {j : Jws} {vs : List Verified}
-    (h : dagTx allowed rej E o j = .accept vs) :
+theorem dagTx_accept {allowed : List String} {rej strict : Bool} {E : Env} {o fr : Bool} {j : Jws} {vs : List Verified}
+    (h : dagTx allowed rej strict E o fr j = .accept vs) :
     ∃ s v, j.sigs = [s] ∧ vs = [v] ∧ v.idx = 0 ∧ v.alg = s.alg ∧ s.alg ∈ allowed ∧ v.overSigningInput = true ∧
       E.verifies v.key s.alg 0 = true ∧
       ((v.src = .embedded 0 ∧ E.embeddedKey 0 = some v.key ∧ s.jwk ≠ .absent ∧ s.kid = "") ∨
        (v.src = .resolver s.kid ∧ E.resolve s.kid = some v.key ∧ s.jwk = .absent ∧ s.kid ≠ "")) ∧
-      (rej = true → s.jwk ≠ .priv) := by
+      (rej = true → s.jwk ≠ .priv) ∧ (strict = true → fr = true) := by
   unfold dagTx at h
   split at h; · cases h
+  split at h; · cases h
+  next hfr =>
   split at h
   · cases h
   · next s hs =>
@@ -116,7 +118,7 @@ theorem dagTx_accept {allowed : List String} {rej : Bool} {E : Env} {o : Bool} {
       split at h
       · next hver =>
         injection h with h
-        refine ⟨s, _, hs, h.symm, rfl, rfl, by simpa using hal, rfl, hver, ?_, ?_⟩
+        refine ⟨s, _, hs, h.symm, rfl, rfl, by simpa using hal, rfl, hver, ?_, ?_, ?_⟩
         · simp only [Bool.or_eq_true, Bool.and_eq_true, decide_eq_true_eq, not_or, not_and] at hxor
           by_cases hj : s.jwk = .absent
           · right
@@ -140,6 +142,10 @@ theorem dagTx_accept {allowed : List String} {rej : Bool} {E : Env} {o : Bool} {
             exact ⟨rfl, hk', hj, this⟩
         · intro hr hp
           simp [hr, hp] at hpriv
+        · intro hst
+          cases hf : fr
+          · simp [hst, hf] at hfr
+          · rfl
       · cases h
   · cases h
 
@@ -337,8 +343,8 @@ theorem dpop_hdrs_irrelevant (sup : List String) (typ : String) (E : Env) (c : B
   | [s] => rfl
   | _ :: _ :: _ => rfl
 
-theorem dagTx_hdrs_irrelevant (allowed : List String) (rej : Bool) (E : Env) (o : Bool) (j : Jws) (g : Sig → List String) :
-    dagTx allowed rej E o (withHeaders (·.jwk) g j) = dagTx allowed rej E o j := by
+theorem dagTx_hdrs_irrelevant (allowed : List String) (rej strict : Bool) (E : Env) (o fr : Bool) (j : Jws) (g : Sig → List String) :
+    dagTx allowed rej strict E o fr (withHeaders (·.jwk) g j) = dagTx allowed rej strict E o fr j := by
   unfold dagTx withHeaders
   simp only
   match j.sigs with
